@@ -385,7 +385,9 @@ def check_case(case) -> Obs:
             vols = np.array(vols, dtype=float)
         obs.cls("volumes-as-" + container)
     undetermined_container = isinstance(case["vols"], list) and container != "list"
-    wl = robotools.EvoWorklist(max_volume=M)
+    from vf.lab import evo_class
+
+    wl = evo_class(len(repr(case["wells"])) + len(repr(case["vols"])))(max_volume=M)
     pre = lw.volumes
     exc = None
     try:
